@@ -236,6 +236,56 @@ def fam_manager(rng, pid, count, fills=(False,), has=(False,), lifes=(None,), he
     return out
 
 
+LOOK1 = ["EMA", "RMA", "ATR", "KC", "RSI", "MACD", "TSI", "ADX", "Supertrend", "OBV", "VWAP", "TR"]
+LOOKP = ["SMA", "WMA", "VWMA", "STDEV", "BBANDS", "ROC", "HL", "AROON", "DONCHIAN", "STOCH", "HMA"]
+
+
+def fam_survivors(rng, pid, count):
+    """C15's second clause at its edge: a warmed-up indicator, then a chunk so large that exactly
+    the look-back the property names survives the trim (one predecessor for the recursive kinds,
+    a window for the windowed ones), now and then one candle more or fewer.  One candle a minute
+    (or one per bucket), so the window holds lifespan/interval + 1 candles."""
+    from streams import tf_seconds
+
+    out = []
+    for t in range(count):
+        rec = t % 3 != 2
+        kind = rng.choice(LOOK1 if rec else LOOKP)
+        tf = rng.choice([None, None, "T1", "T5", "S30"])
+        secs = tf_seconds(tf) or 60
+        cfg = rand_cfg(rng, kind, tf=tf)
+        look = 1 if rec else max(getattr(cfg, "p", 2) or 2, getattr(cfg, "p2", 0) or 0, getattr(cfg, "p3", 0) or 0)
+        life = rng.randint(max(3, look + 1), look + 7)            # window = life + 1 candles
+        warm = 14 + 2 * look
+        m = max(1, life + 1 - look + rng.choice([0, 0, 0, 0, -1, -2]))   # survivors = look (or a few more)
+        n = warm + m + rng.choice([0, 1, 3])
+        hexobj = rng.random() < 0.3
+        st = make_stream(rng, n, rng.choice(["mixed", "walk"]), tf=tf, regular=secs, start_on=rng.random() < 0.7)
+        pre = rng.choice([0, 1, 3])
+        prog = [("new", pre)]
+        a = pre
+        while a < warm:
+            k = min(warm - a, rng.choice([1, 1, 1, 2]))
+            prog.append(("append", a + 1, a + k))
+            a += k
+        prog.append(("append", a + 1, a + m))
+        a += m
+        while a < n:
+            prog.append(("append", a + 1, a + 1))
+            a += 1
+        lifespan = timedelta(seconds=secs * life)
+        if hexobj:
+            hexcfg = {"timeframe": None, "fill": False, "lifespan": lifespan, "ctype": None}
+            sc = {"id": f"{pid}/survhex/{kind}/{tf}/{t}", "fam": "manager", "obj": "hex", "inds": [cfg], "hex": hexcfg,
+                  "stream": st, "prog": prog, "twins": ["untrimmed"], "form": "candle", "member_forms": ["obj"]}
+        else:
+            cfg.lifespan = lifespan
+            sc = {"id": f"{pid}/surv/{kind}/{tf}/{t}", "fam": "manager", "obj": "ind", "inds": [cfg], "stream": st,
+                  "prog": prog, "twins": ["untrimmed"], "form": "candle"}
+        out.append(sc)
+    return out
+
+
 # days on which the zone changes its offset (the skipped / repeated local hour is around 02:00)
 TRANSITIONS = {"America/New_York": ["2024-03-10", "2024-11-03"], "Europe/London": ["2024-03-31", "2024-10-27"],
                "Australia/Lord_Howe": ["2024-04-07", "2024-10-06"], "Pacific/Chatham": ["2024-04-07", "2024-09-29"],
@@ -320,9 +370,15 @@ def decorate(rng, scs):
             elif rng.random() < 0.08 and not sc.get("tz") and not sc.get("base"):
                 # timezone-aware timestamps with an offset that is not a multiple of most timeframes
                 sc["form"] = "aware:" + str(rng.choice([330, -300, 60, 345, -210]))
-        for c in sc["inds"] + sc.get("late", []):
-            if c.timeframe and "_tf_form" not in c.extra and rng.random() < 0.3:
-                c.extra = dict(c.extra, _tf_form=rng.choice(["lower", "enum"]))
+        mem = sc["inds"] + sc.get("late", [])
+        tfs = [c.timeframe for c in mem if c.timeframe]
+        for j, c in enumerate(mem):
+            if c.timeframe and "_tf_form" not in c.extra:
+                # members that share a timeframe spell it differently more often than not: the shared
+                # manager must be found whatever the spelling of the one who comes second
+                share = tfs.count(c.timeframe) > 1
+                if rng.random() < (0.6 if share else 0.3):
+                    c.extra = dict(c.extra, _tf_form=rng.choice(["lower", "enum"]))
             if (not sc.get("names_fixed") and c.kind != "Amorph" and "name_suffix" not in c.extra
                     and "fullname_override" not in c.extra and rng.random() < 0.08):
                 c.extra = dict(c.extra, name_suffix=rng.choice(["x", "v1.5", "b", "a.b"]))
@@ -380,7 +436,8 @@ def _scenarios(pid, tier, rng):
     if pid == "C15":
         return (fam_manager(rng, pid, k(160, 1000), lifes=(1, 2, 3, 5, 8), fills=(False, True))
                 + fam_manager(rng, pid, k(160, 1000), lifes=(6, 8, 12, 20), twins=("untrimmed",),
-                              kinds=("SMA", "EMA", "RSI", "STOCH", "ATR", "MACD", "BBANDS", "OBV"), tag="b"))
+                              kinds=("SMA", "EMA", "RSI", "STOCH", "ATR", "MACD", "BBANDS", "OBV"), tag="b")
+                + fam_survivors(rng, pid, k(90, 600)))
     if pid == "C18":
         return (fam_manager(rng, pid, k(240, 1600), tzs=TZS[1:], fills=(False, True), hexshare=0.15)
                 + fam_transitions(rng, pid, k(100, 600)) + fam_aware(rng, pid, k(20, 150)))
@@ -696,7 +753,8 @@ def fam_reads(rng, pid, count, forms=("candle",), touches=True):
         tf = pick_tf(rng) if rng.random() < 0.4 else None
         cfgs = [IndCfg(k, **dict(p, timeframe=(tf if (j == 1 or not hexobj) else None))) for j, (k, p) in enumerate(picks)]
         if hexobj and rng.random() < 0.5:
-            cfgs.append(rand_cfg(rng, "SMA", tf=pick_tf(rng)))
+            # a third member: on its own timeframe, or sharing the second member's (one manager for both)
+            cfgs.append(rand_cfg(rng, "SMA", tf=(tf if tf and rng.random() < 0.5 else pick_tf(rng))))
         if rng.random() < 0.3:
             # labels the user chooses may contain a dot; the stored name must stay one key
             lab = rng.choice([{"name_suffix": "v1.5"}, {"fullname_override": "my.fast"}, {"name_suffix": "a.b"}])
